@@ -29,6 +29,7 @@ import (
 	"src.elv.sh/pkg/eval/vars"
 	"src.elv.sh/pkg/parse"
 	"src.elv.sh/pkg/parse/cmpd"
+	"src.elv.sh/pkg/verifhook"
 )
 
 type compileBuiltin func(*compiler, *parse.Form) effectOp
@@ -505,6 +506,7 @@ func evalModule(fm *Frame, key string, src parse.Source, r diag.Ranger) (*Ns, er
 	if err != nil {
 		return nil, err
 	}
+	verifhook.At("eval.evalModule.beforeInstall")
 	// Installs the namespace before executing. This prevent circular use'es
 	// from resulting in an infinite recursion.
 	fm.Evaler.modules[key] = ns
